@@ -191,3 +191,28 @@ def mutator_calls(node, receiver_pred, shallow=True):
         if isinstance(c.func, ast.Attribute) and receiver_pred(c.func.value):
             out.append((c.func.attr, c))
     return out
+
+
+_ONE_SHOT_CALLS = {'map', 'filter', 'zip', 'iter', 'enumerate', 'reversed'}
+
+
+def one_shot_globals(p, prefix='mido'):
+    """Module-level names bound to a one-shot iterator (a generator expression, map(), filter(), zip()...): the first code that
+    iterates or tests membership uses it up, every later use sees it empty - behaviour then depends on what ran before.
+    -> [(module, name, node)]"""
+    out = []
+    for m in p.modules.values():
+        if not m.name.startswith(prefix):
+            continue
+        for st in m.tree.body:
+            if isinstance(st, (ast.Assign, ast.AnnAssign)) and st.value is not None:
+                v = st.value
+                one = isinstance(v, ast.GeneratorExp) or (isinstance(v, ast.Call) and isinstance(v.func, ast.Name) and v.func.id in _ONE_SHOT_CALLS
+                                                           and v.func.id not in m.functions and v.func.id not in m.assigns)
+                if one:
+                    tg = st.targets if isinstance(st, ast.Assign) else [st.target]
+                    for t in tg:
+                        for x in _flatten(t):
+                            if isinstance(x, ast.Name):
+                                out.append((m, x.id, st))
+    return out
